@@ -138,3 +138,41 @@ def run_assembly(vector, modules, **kw):
         if isinstance(x.message, errors.UnusedModules):
             unused = list(x.message.remaining)
     return ("product", unused), prod, w
+
+
+def typed_part_scenario(ns, rng, e=None):
+    """an assembly whose modules are wrapped by *part* classes (AbstractPart + Entry, typed by a signature) rather than
+    by generic module classes: one signature with a degenerate letter (S), one with a wildcard side (NNNN), closed by
+    a generic vector.  Returns dict(vec_cls, vtext, parts=[(cls, text)], generic=module class, frags, vfrag) or None.
+    The overhangs are read off the records with the generic class (not through the part wrappers)."""
+    from Bio.Seq import Seq
+    from Bio.Restriction import BsaI
+    from . import entities as be
+    e = e or BsaI
+    core = ns["moclo.core"]
+    CircularRecord = ns["moclo.record"].CircularRecord
+    site, a, k = enzyme_geometry(e)
+    if k != 4:
+        return None
+    Gen = type("GenericModule", (core.Entry,), dict(cutter=e))
+    Vec = type("GenericVector", (core.EntryVector,), dict(cutter=e))
+    P1 = type("StrongOrWeakPart", (core.AbstractPart, core.Entry), dict(cutter=e, signature=("GGAS", "TACT")))
+    P2 = type("OpenEndedPart", (core.AbstractPart, core.Entry), dict(cutter=e, signature=("TACT", "NNNN")))
+    for _ in range(60):
+        t1 = be.class_records(P1, rng, count=1, run_range=(4, 9))[0]
+        t2 = be.class_records(P2, rng, count=1, run_range=(4, 9))[0]
+        o1 = be.observe_entity(Gen(CircularRecord(Seq(t1), id="x")))
+        o2 = be.observe_entity(Gen(CircularRecord(Seq(t2), id="x")))
+        if o1.get("valid") is not True or o2.get("valid") is not True:
+            continue
+        ovs = [o1["overhang_start"].upper(), o1["overhang_end"].upper(), o2["overhang_end"].upper()]
+        if o2["overhang_start"].upper() != ovs[1] or len(set(ovs)) < 3 or any(gen.rc(x) in ovs for x in ovs):
+            continue
+        if count_sites(t1, e) != (1, 1) or count_sites(t2, e) != (1, 1):
+            continue
+        vtext, vfrag = build_vector(e, ovs[2], ovs[0], rng)
+        if vtext is None:
+            continue
+        return dict(vec_cls=Vec, vtext=vtext, parts=[(P1, t1), (P2, t2)], generic=Gen, frags=[o1["target"], o2["target"]], vfrag=vfrag,
+                    overhangs=ovs)
+    return None
